@@ -302,8 +302,26 @@ func checkConflictRemoval(c *Ctx, rule string) {
 
 	// RemoveUnminedTx reaches removeConflict
 	if rm := wtxFn(c, rule, "RemoveUnminedTx"); rm != nil {
-		bad := p.mustPassToSuccess(rm, nil, p.reachingCall(rc), nil)
-		c.Check(rule, "RemoveUnminedTx-reaches-removeConflict", rm.Pos(), bad == nil, "RemoveUnminedTx can succeed without the recursive conflict removal")
+		bad := p.mustPassToSuccess(rm, nil, p.reachingCall(rc), nilEdgeOf("existsRawUnmined"))
+		c.Check(rule, "RemoveUnminedTx-reaches-removeConflict", rm.Pos(), bad == nil, "RemoveUnminedTx can succeed without the recursive conflict removal (other than for a transaction that is not recorded as unmined)")
+		// ... and only for a transaction that IS recorded as unmined: removeConflict deletes, recursively, every unconfirmed
+		// spender of the record's outputs; handed a mined (or unknown) transaction — as the wallet does when the backend
+		// answers "already confirmed" to a re-publication — it would forget that transaction's accepted children
+		nCalls := 0
+		for _, ci := range callsOf(rm) {
+			call, ok := ci.(*ssa.Call)
+			if !ok || !p.reachingCall(rc)(call) {
+				continue
+			}
+			nCalls++
+			unguarded := reachableAvoiding(rm, nil, call, func(from *ssa.BasicBlock, si int) bool {
+				f := edgeFactOf(from, si)
+				return f != nil && f.Kind == "nonnil" && isResultOfCall(f.V, "existsRawUnmined", -1)
+			})
+			c.Check(rule, "RemoveUnminedTx-only-removes-unmined-records", call.Pos(), !unguarded,
+				"RemoveUnminedTx runs the recursive removal without having checked that the transaction is recorded as unmined: for an already-mined transaction every unconfirmed transaction spending its outputs is deleted (an accepted child disappears and its input is offered again)")
+		}
+		c.Floor(rule, "recursive removals started by RemoveUnminedTx", nCalls, 1)
 	}
 }
 
